@@ -307,12 +307,12 @@ theorem segments_sound {g : Graph} :
           | some s' => rw [hsc] at h; exact ih s' i false r h
 
 theorem supers_sound {g : Graph} :
-    ∀ (rest : List Name) (s : Nat) (id : Name) (r : PathRes),
-      supers g s id rest = .ok r → g.decl r.decl.name = some r.decl := by
+    ∀ (rest : List Name) (s : Nat) (id : Name) (after : Bool) (r : PathRes),
+      supers g s id rest after = .ok r → g.decl r.decl.name = some r.decl := by
   intro rest
   induction rest with
   | nil =>
-    intro s id r h
+    intro s id after r h
     unfold supers at h
     by_cases hid : id = SUPER
     · simp only [hid, ↓reduceIte] at h
@@ -332,7 +332,7 @@ theorem supers_sound {g : Graph} :
     · simp only [hid, ↓reduceIte] at h
       exact segments_sound _ _ _ _ _ h
   | cons i rest' ih =>
-    intro s id r h
+    intro s id after r h
     unfold supers at h
     by_cases hid : id = SUPER
     · simp only [hid, ↓reduceIte] at h
@@ -347,7 +347,7 @@ theorem supers_sound {g : Graph} :
           simp only at h
           cases hsc : dec.scope with
           | none => rw [hsc] at h; cases h
-          | some s' => rw [hsc] at h; exact ih s' i r h
+          | some s' => rw [hsc] at h; exact ih s' i true r h
     · simp only [hid, ↓reduceIte] at h
       exact segments_sound _ _ _ _ _ h
 
@@ -355,7 +355,7 @@ theorem resolveModulePart_sound {g : Graph} {s : Nat} {p : Path} {r : PathRes}
     (h : resolveModulePart g s p = .ok r) : g.decl r.decl.name = some r.decl := by
   cases p with
   | nil => cases h
-  | cons id rest => exact supers_sound rest s id r h
+  | cons id rest => exact supers_sound rest s id false r h
 
 /-! ## insert_import, import, imports -/
 
